@@ -53,14 +53,28 @@ Definition allowed_font (e : effect) : bool :=
   | _ => negb (existsb (String.eqb (e_owner e)) font_reachable)      (* private owner type *)
   end.
 
+(* Constructor phase by name is only sound while such a function works on an object nobody else sees yet.  The
+   extractor lists every call, from a function that is NOT constructor phase, of a constructor-phase function that
+   writes (itself, or through constructor-phase callees it hands its own receiver / parameters to) into a type
+   reachable from font.Font through its receiver, a parameter or an expression - i.e. not through an object it has
+   allocated itself (plain byte/number slices are not followed).  A query method with a constructor-like name
+   (CFF2.LoadGlyph filling a scratch field of the shared CFF2) shows up here.  Reviewed exceptions:
+   (callee, caller, reason); none on the current tree. *)
+Definition reviewed_late_calls : list (string * string * string) := [].
+Definition late_call_ok (c : string * string) : bool :=
+  existsb (fun r => match r with (f, g, _) => String.eqb f (fst c) && String.eqb g (snd c) end) reviewed_late_calls.
+
 Definition confined_effects : bool :=
-  forallb allowed package_writes && forallb allowed_font font_writes.
+  forallb allowed package_writes && forallb allowed_font font_writes
+  && forallb late_call_ok constructor_functions_called_late.
 
 (* the facts that break the rules, as (file, line, variable/root, function): printed by the failing proof *)
 Definition site (e : effect) : string * Z * string * string := (e_file e, e_line e, e_var e, e_func e).
 Definition offending_sites : list (string * Z * string * string) :=
   map site (filter (fun e => negb (allowed e)) package_writes)
-  ++ map site (filter (fun e => negb (allowed_font e)) font_writes).
+  ++ map site (filter (fun e => negb (allowed_font e)) font_writes)
+  ++ map (fun c => ("<constructor-phase function called late>", 0%Z, fst c, snd c))
+         (filter (fun c => negb (late_call_ok c)) constructor_functions_called_late).
 
 (* sanity of the extraction itself (also evaluated in Proofs/Effects.v): the facts the contract is known to
    rest on must be present, otherwise the extractor has gone blind *)
